@@ -62,6 +62,13 @@ const (
 
 // parseQueryRow parses a row from a sql.DB query into a struct
 func parseQueryRow(table *Table, scanner *sql.Rows) (interface{}, error) {
+	row, _, err := parseQueryRowWithNulls(table, scanner)
+	return row, err
+}
+
+// parseQueryRowWithNulls is parseQueryRow and also returns the columns that held
+// NULL, which a field that is not a pointer cannot tell from its zero value.
+func parseQueryRowWithNulls(table *Table, scanner *sql.Rows) (interface{}, []*Column, error) {
 	ptr := reflect.New(table.Type)
 	elem := ptr.Elem()
 
@@ -81,10 +88,16 @@ func parseQueryRow(table *Table, scanner *sql.Rows) (interface{}, error) {
 
 	if err := scanner.Scan(scanners...); err != nil {
 		columns, _ := scanner.Columns()
-		return nil, fmt.Errorf("sqlgen: parsing error for `%s`.(%v): %v", table.Name, columns, err)
+		return nil, nil, fmt.Errorf("sqlgen: parsing error for `%s`.(%v): %v", table.Name, columns, err)
 	}
 
-	return ptr.Interface(), nil
+	var nulls []*Column
+	for i, column := range table.Columns {
+		if scanners[i].(*fields.Scanner).WasNull {
+			nulls = append(nulls, column)
+		}
+	}
+	return ptr.Interface(), nulls, nil
 }
 
 func CopySlice(result interface{}, rows []interface{}) error {
